@@ -228,6 +228,8 @@ const StructDeclarationSymbol* SemanticModel::structFor(
     if (node->kind() != SyntaxKind::StructDeclaration)
         return nullptr;
     auto tyDecl = typeDeclarationFor(node);
+    if (!tyDecl)
+        return nullptr;
     PSY_ASSERT_2(tyDecl->kind() == SymbolKind::StructDeclaration, return nullptr);
     return tyDecl->asStructDeclaration();
 }
@@ -238,6 +240,8 @@ const UnionDeclarationSymbol* SemanticModel::unionFor(
     if (node->kind() != SyntaxKind::UnionDeclaration)
         return nullptr;
     auto tyDecl = typeDeclarationFor(node);
+    if (!tyDecl)
+        return nullptr;
     PSY_ASSERT_2(tyDecl->kind() == SymbolKind::UnionDeclaration, return nullptr);
     return tyDecl->asUnionDeclaration();
 }
@@ -246,6 +250,8 @@ const StructOrUnionDeclarationSymbol* SemanticModel::structOrUnionFor(
         const StructOrUnionDeclarationSyntax* node) const
 {
     auto tyDecl = typeDeclarationFor(node);
+    if (!tyDecl)
+        return nullptr;
     PSY_ASSERT_2(tyDecl->kind() == SymbolKind::StructDeclaration
                     || tyDecl->kind() == SymbolKind::UnionDeclaration,
                  return nullptr);
@@ -256,6 +262,8 @@ const EnumDeclarationSymbol* SemanticModel::enumFor(
         const EnumDeclarationSyntax* node) const
 {
     auto tyDecl = typeDeclarationFor(node);
+    if (!tyDecl)
+        return nullptr;
     PSY_ASSERT_2(tyDecl->kind() == SymbolKind::EnumDeclaration, return nullptr);
     return tyDecl->asEnumDeclaration();
 }
